@@ -202,14 +202,21 @@ for _p, _rules in (("C01", ["CW-ALLOC-INIT", "CW-DEFER-WRAPPER"]), ("C02", ["EBR
                    # "user tags are preserved exactly and truncated to the alignment bits" (C08/C09) is the bit-level round trip;
                    # "the reference upgrade returns obeys C02" (C05) includes the signature that ties it to the guard
                    ("C08", ["BIT-TAGGED"]), ("C09", ["BIT-TAGGED"]), ("C05", ["TY-SIG"]),
+                   # the queue's head CAS (and the list's unlink CAS) are ABA-free only while a consumer that holds a
+                   # (head, next) snapshot stays pinned: whatever re-pins a thread under a live guard breaks them
+                   ("C17", ["EBR-REACTIVATE", "EBR-COLLECT-OUTERMOST", "EBR-GUARD-COUNT"]),
+                   ("C18", ["EBR-REACTIVATE", "EBR-COLLECT-OUTERMOST", "EBR-GUARD-COUNT"]),
                    # "nodes still referenced from elsewhere are skipped and survive": the cascade tells by the count alone
                    ("C06", ["MOD-AGING", "OWN-BALANCE", "OWN-PRIMITIVES"]), ("C15", ["EBR-TUNABLES"]), ("C04", ["EBR-TUNABLES"]), ("C20", ["EBR-TUNABLES"]),
+                   ("C20", ["EBR-FLUSH-SCHEDULES"]),
                    ("C13", ["EBR-INIT"]), ("C14", ["EBR-INIT"]), ("C16", ["EBR-INIT"]), ("C18", ["EBR-INIT"]), ("C20", ["EBR-INIT"])):
     registry.PROPS[_p]["rules"] += [x for x in _rules if x not in registry.PROPS[_p]["rules"]]
 
 # a participant that is finalized, or re-pinned, under a live guard is no longer seen by try_advance: the reactivate
 # sequences are part of "deferred work never runs while a critical section active at deferral is active" (C13)
-for _r in ("EBR-REACTIVATE", "EBR-FINALIZE-HANDOFF"):
+# ... and collect pops a sealed bag only if THAT bag is expired: the conditional pop's "predicate held for that very
+# element" is what keeps an unexpired bag from being run
+for _r in ("EBR-REACTIVATE", "EBR-FINALIZE-HANDOFF", "EBR-QUEUE"):
     if _r not in registry.PROPS["C13"]["rules"]:
         registry.PROPS["C13"]["rules"].append(_r)
 # the dependencies once more, now that every list is complete
